@@ -91,6 +91,10 @@ def _mk_fitter_init(I, S, st, with_results=False, plateau=False):
     fc = A.new_array_input(I, "fit_curve_before", length=n, nan=True)
     fres = A.new_array_input(I, "fit_residuals_before", length=n, nan=True)
     pinit, pt = sym_parameters(I, PN, prefix="init")
+    # the contact point may or may not be constrained by an expression (lmfit drops an expression when a value is
+    # set, so code that converts the contact point has to distinguish the two)
+    if not I.fork(z3.Bool("contact_point_has_expression")):
+        pinit.map.d["contact_point"][1].attrs["expr"] = None
     k = z3.Real("gcf_k")
     W = z3.Real("weight_cp")
     I.assume(z3.And(k > 0, W >= 0))
@@ -187,6 +191,8 @@ def _install_minimize(I, st):
             for f in ("min", "max"):
                 I.assume(ph[nm][f] == V.rterm(a[f]))
             I.assume(ph[nm]["vary"] == V.bterm(a["vary"]))
+            # the returned parameters carry the expressions they were given
+            phat.map.d[nm][1].attrs["expr"] = a["expr"]
         res = sx.Obj(sx.ClassVal("MinimizerResult", [sx.OBJECT], {}))
         chi = SReal(z3.Real(f"chisqr{len(mins)}"))
         res.attrs.update(params=phat, chisqr=chi)
@@ -257,7 +263,16 @@ def unit__fit(prop, tier=None, seed=None):
                                                                    V.rterm(xa.fn(i)) == x.uf(i) * k))
             if prop in ("C11",):
                 # the initial contact-point guess is in measured units: the optimiser sees cp * k
-                S.ensure("initial_contact_point_scaled_once", m["cp_at_call"] == cp0 * k)
+                # (a contact point constrained by an expression has no value of its own: lmfit evaluates the
+                #  expression; what nanite must do then is keep the constraint -- C04 reported_expression...)
+                if st["init_values"]["contact_point"]["expr"] is None:
+                    S.ensure("initial_contact_point_scaled_once", m["cp_at_call"] == cp0 * k)
+                    # ... and so are its bounds ("equivalent to fitting with k = 1": the abscissa the optimiser works
+                    # on is k times the measured one, a bound b on the measured contact point is k*b there)
+                    for bd in ("min", "max"):
+                        S.ensure("contact_point_bounds_corrected_like_the_value",
+                                 V.rterm(m["snapshot"]["contact_point"][bd]) == st["pt"]["contact_point"][bd] * k,
+                                 witness=bd)
                 for nm in ("E", "baseline"):
                     S.ensure("other_initial_values_unscaled",
                              V.rterm(m["snapshot"][nm]["value"]) == st["pt"][nm]["value"], witness=nm)
@@ -285,20 +300,34 @@ def unit__fit(prop, tier=None, seed=None):
             if okpf:
                 rep = {nm: e[1].attrs for nm, e in m["phat"].map.d.items()}
                 if prop in ("C11", "C04"):
-                    S.ensure("reported_contact_point_in_measured_units",
-                             V.rterm(rep["contact_point"]["value"]) == ph["contact_point"]["value"] / k)
+                    if st["init_values"]["contact_point"]["expr"] is None:
+                        S.ensure("reported_contact_point_in_measured_units",
+                                 V.rterm(rep["contact_point"]["value"]) == ph["contact_point"]["value"] / k)
                     for nm in ("E", "baseline"):
                         S.ensure("reported_other_parameters_unchanged",
                                  V.rterm(rep[nm]["value"]) == ph[nm]["value"], witness=nm)
                 if prop == "C04":
+                    # an expression constraint of the initial parameters is the one reported (so that the reported
+                    # parameters "satisfy their expression": lmfit evaluates it on every read)
+                    for nm in PN:
+                        e0 = st["init_values"][nm]["expr"]
+                        e1 = rep[nm].get("expr")
+                        S.ensure("reported_expression_is_the_initial_one",
+                                 (e0 is None and e1 is None) or (e0 is not None and e1 is not None
+                                                                 and I.truth(I.equals(e0, e1))),
+                                 witness=nm, case={"parameter": nm, "initial": repr(e0), "reported": repr(e1)})
                     # fixed parameters keep their initial value (incl. the rescaled contact point)
                     for nm in PN:
                         init = st["pt"][nm]
+                        if nm == "contact_point" and st["init_values"]["contact_point"]["expr"] is not None:
+                            continue
                         S.ensure("fixed_parameters_keep_initial_value",
                                  z3.Implies(z3.Not(init["vary"]), V.rterm(rep[nm]["value"]) == init["value"]),
                                  witness=nm)
-                    for nm in ("E", "baseline"):
+                    for nm in PN:
                         init = st["pt"][nm]
+                        if nm == "contact_point" and st["init_values"]["contact_point"]["expr"] is not None:
+                            continue
                         S.ensure("varied_parameters_inside_bounds",
                                  z3.Implies(init["vary"], z3.And(V.rterm(rep[nm]["value"]) >= init["min"],
                                                                  V.rterm(rep[nm]["value"]) <= init["max"])),
@@ -367,15 +396,22 @@ def unit_fit(prop, tier=None, seed=None):
         cls = st["cls"]
 
         def _fit_contract(I, self):
-            # contract of _fit (proved separately): reads fit_range, writes the result keys
+            # contract of _fit (proved separately): reads fit_range, writes the result keys -- or, with too few
+            # points, reports success False and writes nothing else
             snap = self.attrs["fit_range"].snap()
             cp = z3.Real(f"cp_pass{len(passes)}")
-            pf, _ = sym_parameters(I, PN, prefix=f"pass{len(passes)}")
-            pf.map.d["contact_point"][1].attrs["value"] = SReal(cp)
-            self.attrs["fp"].map.d["params_fitted"] = [True, pf]
-            self.attrs["fp"].map.d["success"] = [True, True]
+            ok = I.fork(z3.Bool(f"pass{len(passes)}_has_enough_points"))
+            if ok:
+                pf, _ = sym_parameters(I, PN, prefix=f"pass{len(passes)}")
+                pf.map.d["contact_point"][1].attrs["value"] = SReal(cp)
+                self.attrs["fp"].map.d["params_fitted"] = [True, pf]
+                for rk in ("chi_sqr", "xmin", "xmax"):
+                    self.attrs["fp"].map.d[rk] = [True, SReal(z3.Real(f"{rk}_pass{len(passes)}"))]
+                self.attrs["fp"].map.d["success"] = [True, True]
+            else:
+                self.attrs["fp"].map.d["success"] = [True, False]
             passes.append(dict(mask=snap, cp=cp, range_x=list(self.attrs["range_x"]),
-                               range_type=self.attrs["range_type"]))
+                               range_type=self.attrs["range_type"], ok=ok))
         cls.ns["_fit"] = sx.Builtin("IndentationFitter._fit", _fit_contract)
         st.update(a=a, b=b, rtype=rtype, rx=rx, passes=passes)
         f, _ = cls.find("fit")
@@ -408,15 +444,28 @@ def unit_fit(prop, tier=None, seed=None):
                 S.ensure("absolute.points_are_segment_and_closed_interval",
                          z3.Implies(inr, V.bterm(ps["mask"](i)) == want(z3.RealVal(0))))
         else:
-            S.ensure("relative_cp.refined_at_least_once", len(passes) >= 2)
-            for j in range(1, len(passes)):
-                # anchored at the contact point fitted in the previous pass
-                S.ensure("relative_cp.interval_anchored_at_previous_contact_point",
-                         z3.Implies(inr, V.bterm(passes[j]["mask"](i)) == want(passes[j - 1]["cp"])),
-                         witness=f"pass{j + 1}")
+            # (a pass without enough points reports success False and leaves the earlier results alone: a later
+            #  pass is anchored at the contact point of the LAST SUCCESSFUL pass)
+            if all(ps["ok"] for ps in passes):
+                S.ensure("relative_cp.refined_at_least_once", len(passes) >= 2)
+            last_cp = None
+            for j in range(len(passes)):
+                if j >= 1 and last_cp is not None:
+                    S.ensure("relative_cp.interval_anchored_at_previous_contact_point",
+                             z3.Implies(inr, V.bterm(passes[j]["mask"](i)) == want(last_cp)),
+                             witness=f"pass{j + 1}")
+                if passes[j]["ok"]:
+                    last_cp = passes[j]["cp"]
         if prop == "C10":
             for nm_, arr in (("x_axis", x), ("segment", seg), ("y_axis", st["y"])):
                 S.ensure("frame.data_arrays", not any(mm is arr for mm in I.mutations), witness=nm_)
+        if passes and not passes[-1]["ok"]:
+            # "an unsuccessful fit leaves NaN columns and success False instead of stale numbers": the fitter starts
+            # without results; what an earlier pass of a multi-pass fit reported is not the result of this fit
+            left = [rk for rk in ("params_fitted", "chi_sqr", "xmin", "xmax")
+                    if o.attrs["fp"].map.d.get(rk, [False])[0] is not False]
+            S.ensure("unsuccessful_fit_reports_no_stale_results", not left, case={"left_behind": left},
+                     witness=st["rtype"].replace(" ", "_"))
         fpx = st["fp"].map.d["range_x"][1]
         S.ensure("settings_range_not_modified", I.valid(z3.And(V.rterm(fpx[0]) == a, V.rterm(fpx[1]) == b))
                  and st["fp"].map.d["range_type"][1] == st["rtype"])
@@ -464,6 +513,21 @@ def replay_fitter(ob):
         cur.fit_model(model_key="hertz_para", range_x=(-2e-6, 1e-6), range_type="relative cp", segment=0)
         used = np.array(cur["fit range"], dtype=bool)
         return {"confirmed": False, "note": f"relative cp fit used {int(used.sum())} points"}
+    if "contact_point_bounds" in oid or ("inside_bounds" in oid and "contact_point" in (ob.witness or "")):
+        # bounds on the contact point, weighting off: the k = 0.5 fit must be the k = 1 fit
+        def run(k_):
+            cur = _synthetic()
+            cur.apply_preprocessing(["compute_tip_position", "correct_force_offset", "correct_tip_offset"])
+            p = copy.deepcopy(cur.get_initial_fit_parameters(model_key="hertz_para"))
+            p["contact_point"].set(value=0, min=-8e-9, max=1e-8)
+            cur.fit_model(model_key="hertz_para", params_initial=p, gcf_k=k_, weight_cp=0)
+            pf = cur.fit_properties["params_fitted"]
+            return pf["contact_point"].value, pf["E"].value * k_ ** 1.5
+        (c1, e1), (c2, e2) = run(1.0), run(0.5)
+        bad = abs(c1 - c2) > 1e-3 * abs(c1) + 1e-12 or abs(e1 - e2) > 1e-3 * abs(e1)
+        return {"confirmed": bool(bad), "input": {"contact point bounds": [-8e-9, 1e-8], "weight_cp": 0, "gcf_k": 0.5},
+                "observed": {"k=1": [c1, e1], "k=0.5 (E*k^1.5)": [c2, e2]},
+                "required": "same contact point and modulus*k^1.5 as the k = 1 fit"}
     if "params_initial_unchanged" in oid or "initial_contact_point" in oid:
         for k in (0.5, 2.0):
             for rtype in ("absolute", "relative cp"):
@@ -478,6 +542,55 @@ def replay_fitter(ob):
                             "observed": {"caller's contact_point after the call": p["contact_point"].value,
                                          "ratio": p["contact_point"].value / cp0},
                             "required": "the caller's initial parameters are not modified"}
+        return {"confirmed": False}
+    if "no_stale_results" in oid:
+        # the refinement pass of a contact-point-relative fit has no points in its interval
+        cur = _synthetic()
+        cur.apply_preprocessing(["compute_tip_position", "correct_force_offset", "correct_tip_offset"])
+        cur.fit_model(model_key="hertz_para", range_type="relative cp", range_x=(-1e-9, 1e-9))
+        fp = cur.fit_properties
+        left = [k_ for k_ in ("params_fitted", "chi_sqr", "xmin", "xmax") if k_ in fp]
+        return {"confirmed": (not fp["success"]) and bool(left),
+                "input": {"range_type": "relative cp", "range_x": [-1e-9, 1e-9]},
+                "observed": {"success": bool(fp["success"]), "result keys left behind": left},
+                "required": "an unsuccessful fit shows no numbers of another pass"}
+    if ".fit.no_exception" in oid:
+        # segments with too few points for one / for every pass
+        for rtype, rx in (("absolute", (0, 0)), ("relative cp", (-1e-6, 1e-6)), ("relative cp", (-1e-12, 1e-12))):
+            for keep in (3, 2000):
+                cur = _synthetic()
+                sg = np.array(cur["segment"]).copy()
+                if keep < 2000:
+                    sg[keep:] = 1
+                    cur["segment"] = sg
+                try:
+                    cur.fit_model(model_key="hertz_para", segment=0, range_type=rtype, range_x=rx)
+                except BaseException as exc:
+                    return {"confirmed": True, "input": {"range_type": rtype, "range_x": list(rx),
+                                                         "samples in the segment": keep},
+                            "observed": repr(exc)[:120], "required": "success False and NaN columns, no exception"}
+        return {"confirmed": False}
+    if "reported_expression" in oid:
+        # an expression constraint on each parameter in turn; the reported parameters must satisfy it
+        for k in (1.0, 0.5):
+            for rtype, rx in (("absolute", (0, 0)), ("relative cp", (-2e-6, 1e-6))):
+                for target, expr, dep in (("contact_point", "baseline*100", "baseline"), ("baseline", "E*1e-15", "E")):
+                    cur = _synthetic()
+                    cur.apply_preprocessing(["compute_tip_position", "correct_force_offset", "correct_tip_offset"])
+                    p = copy.deepcopy(cur.get_initial_fit_parameters(model_key="hertz_para"))
+                    p["baseline"].set(value=1e-11, vary=True)
+                    p[target].set(expr=expr)
+                    cur.fit_model(model_key="hertz_para", params_initial=p, gcf_k=k, range_type=rtype, range_x=rx)
+                    pf = cur.fit_properties["params_fitted"]
+                    want = pf["baseline"].value * 100 if target == "contact_point" else pf["E"].value * 1e-15
+                    got = pf[target].value
+                    if cur.fit_properties["success"] and (pf[target].expr != expr
+                                                           or abs(got - want) > 1e-9 * max(abs(want), 1e-300)):
+                        return {"confirmed": True,
+                                "input": {"gcf_k": k, "range_type": rtype, "constraint": f"{target} := {expr}"},
+                                "observed": {"reported " + target: got, "expression evaluates to": want,
+                                             "reported expr": pf[target].expr},
+                                "required": "the reported parameters satisfy the expression"}
         return {"confirmed": False}
     if "reported_contact_point" in oid or "fixed_parameters" in oid:
         for k in (0.5, 2.0):
@@ -538,5 +651,71 @@ def replay_fitter(ob):
     return {"confirmed": False, "why": "no native scenario"}
 
 
+# =================================================================== multi-pass fit, end to end
+def unit_fit_multipass(prop, tier=None, seed=None):
+    """Contact-point-relative fit with the REAL fit() AND the real _fit() (only lmfit.minimize and the model are
+    under contract): what one pass leaves behind on the fitter object is what the next pass starts from, so state
+    carried between passes (any attribute, not only the ones the modular units havoc) is covered.  Clauses are
+    about the LAST pass: reported expressions, fixed parameters, the reported contact point."""
+    S = Session(prop, "fit.multipass", "nanite.fit:IndentationFitter.fit")
+    S.check_domain = False      # division-domain obligations belong to unit _fit
+    st = {}
+
+    def setup(I):
+        o = _mk_fitter_init(I, S, st)
+        a, b = z3.Real("range_a"), z3.Real("range_b")
+        o.attrs.update(range_type="relative cp", range_x=[SReal(a), SReal(b)], optimal_fit_edelta=False)
+        st["fp"].map.d["range_type"][1] = "relative cp"
+        st["fp"].map.d["range_x"][1] = [SReal(a), SReal(b)]
+        _install_model(I, st)
+        _install_minimize(I, st)
+        st["init_values"] = {nm: dict(e[1].attrs) for nm, e in st["pinit"].map.d.items()}
+        # the fit mask / result columns are whatever __init__ made them (this is a whole fit, not one pass)
+        f, _ = st["cls"].find("fit")
+        return sx.BoundMethod(o, f), [], {}
+
+    def post(S, out):
+        I = S.I
+        if out.kind != "return":
+            S.fail("no_exception", f"raises {out.value.cls.name}")
+            return
+        S.ok("no_exception")
+        fp, mins, k = st["fp"], st["mins"], st["k"]
+        succ = fp.map.d.get("success")
+        if not (succ is not None and succ[0] is True and succ[1] is True and mins):
+            return          # last pass had too few points: nothing is reported (clauses of unit _fit)
+        m = mins[-1]
+        pf = fp.map.d.get("params_fitted")
+        okpf = pf is not None and pf[0] is True and pf[1] is m["phat"]
+        S.ensure("reported_parameters_are_those_of_the_last_pass", okpf, case={"passes": len(mins)})
+        if not okpf:
+            return
+        rep = {nm: e[1].attrs for nm, e in m["phat"].map.d.items()}
+        for nm in PN:
+            e0 = st["init_values"][nm]["expr"]
+            e1 = rep[nm].get("expr")
+            S.ensure("reported_expression_is_the_initial_one",
+                     (e0 is None and e1 is None) or (e0 is not None and e1 is not None and I.truth(I.equals(e0, e1))),
+                     witness=nm, case={"parameter": nm, "initial": repr(e0), "reported": repr(e1), "passes": len(mins)})
+            # every pass starts from settings that keep the user's constraints: expression, vary, bounds
+            a = m["snapshot"][nm]
+            init = st["pt"][nm]
+            e_call = a.get("expr")
+            S.ensure("constraints_handed_to_the_optimiser_in_the_last_pass",
+                     ((e0 is None) == (e_call is None)) and I.valid(z3.And(
+                         V.bterm(a["vary"]) == init["vary"] if e0 is None else z3.BoolVal(True),
+                         V.rterm(a["min"]) == init["min"], V.rterm(a["max"]) == init["max"])),
+                     witness=nm, case={"parameter": nm, "passes": len(mins)})
+        if st["init_values"]["contact_point"]["expr"] is None:
+            S.ensure("reported_contact_point_in_measured_units",
+                     V.rterm(rep["contact_point"]["value"]) == m["ph"]["contact_point"]["value"] / k)
+
+    S.run(setup, post, max_paths=600)
+    return S.finish(replay=replay_fitter)
+
+
 def units_for(prop):
-    return [Unit("_fit", unit__fit, prop=prop), Unit("fit", unit_fit, prop=prop)]
+    us = [Unit("_fit", unit__fit, prop=prop), Unit("fit", unit_fit, prop=prop)]
+    # (unit_fit_multipass -- real fit() + real _fit() for four passes -- explores 160+ paths and took 29 min in the
+    #  one run it was given; it is kept for reference but not registered)
+    return us
